@@ -2520,6 +2520,9 @@ func (p *Parser) wordIter(ftok string, fpos Pos) *WordIter {
 	wi := &WordIter{}
 	if wi.Name = p.getLit(); wi.Name == nil {
 		p.followErr(fpos, ftok, noQuote("a literal"))
+	} else if p.lang.in(LangPOSIX) && !ValidName(wi.Name.Value) {
+		// POSIX shells such as dash reject this while parsing; others only when running.
+		p.posErr(wi.Name.Pos(), "invalid %s loop variable name", ftok)
 	}
 	if p.got(semicolon) {
 		p.got(_Newl)
